@@ -186,12 +186,12 @@ class Ctx:
             return False
         cur = None
         for line in out.replace("\n  ", " ").splitlines():
-            m = re.match(r"'([^']+)' depends on axioms: \[(.*)\]", line)
+            m = re.match(r"'(.+)' depends on axioms: \[(.*)\]", line)
             if m:
                 ax = [a.strip() for a in m.group(2).split(",") if a.strip()]
                 self.axioms[m.group(1)] = ax
                 continue
-            m = re.match(r"'([^']+)' does not depend on any axioms", line)
+            m = re.match(r"'(.+)' does not depend on any axioms", line)
             if m:
                 self.axioms[m.group(1)] = []
         for _, n in thms:
